@@ -738,6 +738,11 @@ func TestC20_EventPipeline(t *testing.T) {
 				key := c20kMint
 				if len(extra) == 0 && shares(TagAddBridgeMint) {
 					key = c20kMintSameClient
+					for _, l := range lost { // every lost mint must belong to a client that minted more than once in this block
+						if perTag[TagAddBridgeMint.String()][strings.SplitN(l, "|", 2)[0]] < 2 {
+							key = c20kMint
+						}
+					}
 				}
 				fail(key, "block %d: bridge mints after mergeEvents differ: lost %v, unexpected %v (user|nonce|amount|signers)", bi, lost, extra)
 			}
@@ -748,6 +753,17 @@ func TestC20_EventPipeline(t *testing.T) {
 				key := c20kPenalty
 				if shares(TagStakePoolPenalty) {
 					key = c20kPenaltySameProv
+					for k, w := range want.penalties { // every lowered sum must belong to a provider slashed more than once in this block
+						prov := strings.SplitN(k, "|", 2)[0]
+						if g := got.penalties[k]; g != w && (g > w || perTag[TagStakePoolPenalty.String()][spenum.ChallengeSlashPenalty.String()+prov] < 2) {
+							key = c20kPenalty
+						}
+					}
+					for k, g := range got.penalties {
+						if _, ok := want.penalties[k]; !ok && g != 0 {
+							key = c20kPenalty
+						}
+					}
 				}
 				fail(key, "block %d: stake pool penalty sums (provider|delegate) after mergeEvents differ: %v", bi, d)
 			}
